@@ -456,6 +456,9 @@ class SInt:
     def __int__(s):
         return s.__index__()
 
+    def __format__(s, spec):
+        return '<int>'
+
     def __float__(s):
         raise Unsupported('float() of symbolic int')
 
@@ -622,6 +625,9 @@ class SReal:
     def __hash__(s):
         return hash(s.z)
 
+    def __format__(s, spec):
+        return '<real>'
+
     def __float__(s):
         raise Unsupported('float() of symbolic real')
 
@@ -751,6 +757,18 @@ def sint(v, *a):
     if isinstance(v, SBool):
         return SInt(z3.If(v.z, 1, 0))
     return builtins.int(v, *a)
+
+
+class _IntMeta(type):
+    def __instancecheck__(cls, obj):
+        return isinstance(obj, (builtins.int, SInt))
+
+
+class int_type(builtins.int, metaclass=_IntMeta):
+    """stand-in for the builtin `int` that still works in isinstance(x, int)"""
+
+    def __new__(cls, v=0, *a):
+        return sint(v, *a)
 
 
 def sbool(v):
